@@ -352,6 +352,17 @@ Definition caps_ok_step (s : sink) (o : op) : bool :=
 Fixpoint caps_ok (s : sink) (ops : list op) : bool :=
   match ops with [] => true | o :: r => caps_ok_step s o && caps_ok (sink_op s o) r end.
 
+Lemma in_publish_chans s id : chans (in_publish s id) = chans s.
+Proof. destruct (in_publish_eq s id) as [-> | ->]; reflexivity. Qed.
+Lemma in_publish_tasks s id : tasks (in_publish s id) = tasks s.
+Proof. destruct (in_publish_eq s id) as [-> | ->]; reflexivity. Qed.
+
+Lemma in_publish_eff s id : c05_eff s (in_publish s id).
+Proof.
+  destruct (in_publish_fields s id) as (_&_&A&B&_&_&_&_&C&_&_&_&D&_). apply eff_same; auto.
+  destruct (in_publish_eq s id) as [-> | ->]; [now left|right]. exists W_IN_PUBACK, id. auto.
+Qed.
+
 Lemma step_eff s o :
   match o with
   | OAcks l => True
@@ -363,6 +374,7 @@ Proof.
   - apply start_eff. - apply poll_eff. - apply drop_eff. - apply release_eff. - apply drop_receipt_eff.
   - apply close_eff. - apply force_close_eff. - apply eff_same; try reflexivity; now left.
   - apply chunk_eff. - apply drop_stream_eff. - apply drop_chunk_eff. - apply eff_same; auto; now left. - apply create_eff.
+  - apply in_publish_eff.
 Qed.
 
 Lemma wrb_same s on : cap (do_wrb s on) = cap s /\ inflight (do_wrb s on) = inflight s /\ io (do_wrb s on) = io s /\
@@ -386,7 +398,7 @@ Lemma window_step s o : caps_ok_step s o = true -> lenN (inflight s) <= cap s ->
 Proof.
   intros C H. unfold sink_op. destruct (settle_same (sink_step (set_wire s []) o)) as (S1 & S2 & _). rewrite S1, S2.
   set (s0 := set_wire s []). change (lenN (inflight s0) <= cap s0) in H.
-  pose proof (step_eff s0 o) as E. destruct o as [t k i z|t|t|l|t|t|on|n| | |n|t n|t|t| |t k i z]; cbn [sink_step] in *;
+  pose proof (step_eff s0 o) as E. destruct o as [t k i z|t|t|l|t|t|on|n| | |n|t n|t|t| |t k i z|ip]; cbn [sink_step] in *;
     try (destruct E as (A & B & [(C1 & _)|[(C1 & _)|(e & tag & id & C1 & C2 & _)]]); rewrite A, C1, ?lenN_nil, ?lenN_app, ?lenN_cons, ?lenN_nil; lia).
   - destruct (ack_list_eff l s0) as (A & _ & _ & _ & L & _). cbv zeta in *. rewrite A. lia.
   - destruct (wrb_same s0 on) as (A & B & _). rewrite A, B. exact H.
@@ -423,7 +435,7 @@ Proof.
     - rewrite C1 in H. contradiction.
     - rewrite C1 in H. contradiction.
     - rewrite C1 in H. apply in_app_or in H as [H|[<-|[]]]; [contradiction|]. auto. }
-  destruct o as [t k i z|t|t|l|t|t|on|n| | |n|t n|t|t| |t k i z]; cbn [sink_step] in *; try (left; exact (G E)).
+  destruct o as [t k i z|t|t|l|t|t|on|n| | |n|t n|t|t| |t k i z|ip]; cbn [sink_step] in *; try (left; exact (G E)).
   - right. destruct (ack_list_eff l s0) as (_ & _ & _ & _ & _ & _ & _ & L). cbv zeta in L.
     destruct (L e H) as [Z|Z]; [contradiction|]. eauto.
   - destruct (wrb_same s0 on) as (_ & B & _). rewrite B in H. contradiction.
@@ -486,9 +498,9 @@ Proof.
       assert (LL : lenN (inflight s0 ++ [e]) = lenN (inflight s0) + 1) by (rewrite lenN_app; reflexivity). rewrite LL.
       assert (Z' : io s = 0) by (now rewrite <- IO0). specialize (B Z').
       split; [intros _; lia|]. split; [lia|intros Q; congruence]. }
-  destruct o as [t k i z|t|t|l|t|t|on|n| | |n|t n|t|t| |t k i z]; unfold s1; cbn [sink_step finals] in *;
+  destruct o as [t k i z|t|t|l|t|t|on|n| | |n|t n|t|t| |t k i z|ip]; unfold s1; cbn [sink_step finals] in *;
     try (apply EFF; [first [apply start_eff|apply poll_eff|apply drop_eff|apply release_eff|apply drop_receipt_eff|apply close_eff
-                           |apply force_close_eff|apply chunk_eff|apply drop_stream_eff|apply drop_chunk_eff|apply create_eff
+                           |apply force_close_eff|apply chunk_eff|apply drop_stream_eff|apply drop_chunk_eff|apply create_eff|apply in_publish_eff
                            |apply eff_same; try reflexivity; now left]|reflexivity]).
   - destruct (ack_list_eff l s0) as (A1 & A2 & A3 & A4 & A5 & A6 & A7 & A8). cbv zeta in *.
     destruct (A3 E0) as [_ CP]. rewrite CP, CP0, A1. split; [|split].
@@ -774,7 +786,7 @@ Qed.
 Lemma step_nf ks s o c :
   inv ks s -> (forall l, o <> OAcks l) -> (c < length (chans s))%nat -> ackch ks c -> nf s (sink_step s o) c.
 Proof.
-  intros I NA L A. destruct o as [t k i z|t|t|l|t|t|on|n| | |n|t n|t|t| |t k i z]; cbn [sink_step].
+  intros I NA L A. destruct o as [t k i z|t|t|l|t|t|on|n| | |n|t n|t|t| |t k i z|ip]; cbn [sink_step].
   - now apply nf_start with ks.
   - now apply nf_poll with ks.
   - now apply nf_drop with ks.
@@ -791,6 +803,7 @@ Proof.
   - apply nf_drop_chunk.
   - nfe.
   - now apply nf_create with ks.
+  - apply nf_eq, in_publish_chans.
 Qed.
 
 Lemma filled_by_send chs c0 v c :
@@ -1012,7 +1025,7 @@ Proof.
   assert (I0 : inv ks s0) by (apply inv_core with s; auto).
   assert (CS : forall s1, cg (settle s1) c = cg s1 c) by (intros s1; unfold settle, cg; destruct (io s1 =? 1); reflexivity).
   unfold sink_op in FL. fold s0 in FL. rewrite CS in FL.
-  destruct o as [t0 k0 i z|t0|t0|l|t0|t0|on|n| | |n|t0 n|t0|t0| |t0 k0 i z];
+  destruct o as [t0 k0 i z|t0|t0|l|t0|t0|on|n| | |n|t0 n|t0|t0| |t0 k0 i z|ip];
     try (exfalso; apply NF; apply (nf_filled s0 _ c) in FL as [FL _]; [exact FL|];
          apply step_nf with ks; auto; [discriminate|rewrite <- (i_len _ _ I0); destruct AC as [A|A]; eapply kof_range; eauto]).
   2,3: exfalso; apply NF; exact FL.
@@ -1575,7 +1588,7 @@ Qed.
 Lemma step_cm ks s o c :
   inv ks s -> (c < length (chans s))%nat -> kof ks c = Some KW -> cm s (sink_step s o) c.
 Proof.
-  intros I L A. destruct o as [t k i z|t|t|l|t|t|on|n| | |n|t n|t|t| |t k i z]; cbn [sink_step].
+  intros I L A. destruct o as [t k i z|t|t|l|t|t|on|n| | |n|t n|t|t| |t k i z|ip]; cbn [sink_step].
   - now apply cm_start with ks.
   - now apply cm_poll with ks.
   - now apply cm_drop with ks.
@@ -1592,6 +1605,7 @@ Proof.
   - apply cm_drop_chunk.
   - cme.
   - now apply cm_create with ks.
+  - apply cm_eq, in_publish_chans.
 Qed.
 
 (* ---------------------------------------------------------------- counting parked tasks *)
@@ -2243,7 +2257,7 @@ Proof.
   intros SI ST WO KN. pose proof (inv_step s o SI ST) as SI'. destruct SI as [ks I].
   assert (CMA : forall c, kof ks c = Some KW -> (c < length (chans s))%nat -> cm s (sink_step s o) c).
   { intros c K L. now apply step_cm with ks. }
-  destruct o as [t k i z|t|t|l|t|t|on|n| | |n|t n|t|t| |t k i z]; cbn [sink_step] in *.
+  destruct o as [t k i z|t|t|l|t|t|on|n| | |n|t n|t|t| |t k i z|ip]; cbn [sink_step] in *.
   - now apply wake_ok_start with ks.
   - now apply wake_ok_poll with ks.
   - now apply wake_ok_drop with ks.
@@ -2260,6 +2274,7 @@ Proof.
   - eapply wake_ok_other; eauto; [apply drop_chunk_eff|apply drop_chunk_tw].
   - exact WO.
   - now apply wake_ok_create with ks.
+  - eapply wake_ok_other; eauto; [apply in_publish_eff|left; apply in_publish_tasks].
 Qed.
 
 Lemma wake_ok_op s o :
